@@ -151,3 +151,13 @@ Example c11_code_crc32_refines_model_instance :
   observe (exec (60 * List.length check_msg + 60) (mem_at 4096 check_msg) (upd (upd (fun _ => 0) "message" 4096) "message_len" (zlen check_msg)) []
                 body_libwifi_crc32) = Some (Some 3421780262, []).
 Proof. split; [exact wf_check | ]. split; vm_compute; reflexivity. Qed.
+
+(* the translated verification on the ACK frame: its four last octets are its FCS, with one bit flipped they are not *)
+Example c11_code_frame_verify_instance :
+  let rho c := upd (upd (upd (fun _ => 0) "ret:libwifi_calculate_fcs" c) "frame" 8192) "frame_len" (zlen ack_frame) in
+  observe (exec 30 (mem_at 8192 ack_frame) (rho (crc32_list ack_body)) [] body_libwifi_frame_verify) =
+    Some (Some 1, [("memcpy", [0; 8202; 4]); ("libwifi_calculate_fcs", [8192; 10])]) /\
+  observe (exec 30 (mem_at 8192 ack_frame) (rho (crc32_list (0 :: tl ack_body))) [] body_libwifi_frame_verify) =
+    Some (Some 0, [("memcpy", [0; 8202; 4]); ("libwifi_calculate_fcs", [8192; 10])]) /\
+  observe (exec 30 (mem_at 8192 [1; 2; 3]) (upd (upd (fun _ => 0) "frame" 8192) "frame_len" 3) [] body_libwifi_frame_verify) = Some (Some 0, []).
+Proof. repeat split; vm_compute; reflexivity. Qed.
